@@ -17,7 +17,7 @@ RULE = ('bounded-exhaustive: (1) all byte strings of length 0..2 [quick: all of 
         'defaults on 12 representative contents, (4) longest-fitting / one-shorter / length-1 content for every (version, level, mode), '
         '(5) all sequences of <= 3 parts from a 12-part menu x micro x eci, (6) byte parts in 2-3 different encodings with eci=True around every capacity, all 45^2 alphanumeric pairs and all 1000 digit triples; every returned symbol is decoded by qrref and the payload '
         'bytes and ECI headers compared with the statement. Non-trivial = a symbol was returned and decoded; distinct = distinct call.')
-BOUNDS = {'quick': 'bytes<=1 all + 44^2 pairs; strings n<=3; k<=2 deviations; capacity sweep on M1-M4,1-10,26,27,40; <=2 parts',
+BOUNDS = {'quick': 'bytes<=1 all + 44^2 pairs; strings n<=3; k<=2 deviations (through make, make_qr and make_micro); capacity sweep on all 44 versions; <=2 parts',
           'thorough': 'all 65793 byte strings <=2; strings n<=4; k<=3 deviations + full product on versions<=2/Micro; all 44 versions; <=3 parts'}
 ASSUMPTIONS = ['qrref reader (self-tested on ISO figures); Python stdlib codecs define "the text encoded in <encoding>"',
                'a redundant ECI header announcing ISO-8859-1 is accepted (not forbidden by the statement)']
@@ -88,7 +88,7 @@ def gen_cases(tier):
                 for v in small[1][1]:
                     yield ('repfull', ci, e, v)
     # family 4
-    vers = T.ORDER if not q else ('M1', 'M2', 'M3', 'M4') + tuple(range(1, 11)) + (26, 27, 40)
+    vers = T.ORDER
     for v in vers:
         for lvl in T.levels_of(v):
             for mode in T.MODES:
@@ -113,13 +113,16 @@ def gen_cases(tier):
             yield ('parts', idx)
 
 
-def do_call(content, kw, acc, case):
+ENTRY = {'make_qr': segno.make_qr, 'make_micro': segno.make_micro}
+
+
+def do_call(content, kw, acc, case, entry=None):
     try:
         exp = C.expected_parts(content, kw.get('mode'), kw.get('encoding'))
     except (UnicodeError, LookupError, AttributeError):
         exp = None
     try:
-        qr = segno.make(content, **kw)
+        qr = ENTRY[entry](content, **kw) if entry else segno.make(content, **kw)
     except C.REFUSALS as e:
         acc.eval(case, nontrivial=False, outcome='refused:' + C.exc_name(e))
         acc.count('refused')
@@ -166,6 +169,13 @@ def run_case(case, acc):
         content = REP_CONTENTS[case[1]]
         content = list(content) if isinstance(content, tuple) else content
         do_call(content, dict(case[2]), acc, ('call', content, dict(case[2])))
+        # the same option vector through the two convenience entry points (which take no micro / eci-in-micro arguments)
+        kw = {k: v for k, v in dict(case[2]).items() if k != 'micro'}
+        do_call(content, kw, acc, ('callq', content, kw), entry='make_qr')
+        kwm = {k: v for k, v in kw.items() if k != 'eci'}
+        do_call(content, kwm, acc, ('callm', content, kwm), entry='make_micro')
+    elif kind in ('callq', 'callm'):
+        do_call(case[1], dict(case[2]), acc, case, entry='make_qr' if kind == 'callq' else 'make_micro')
     elif kind == 'repfull':
         content = REP_CONTENTS[case[1]]
         content = list(content) if isinstance(content, tuple) else content
